@@ -46,4 +46,43 @@ func init() {
 			{Dir: "bech32", Name: "ZZ_C03_bech32", Variant: "D88w4", Tiers: "thorough", Reach: []string{"accepted"}, Tweak: params(true, "datalen", 82, "w", 4)},
 		},
 	})
+	fp := func(backend string, relax bool) func(c *sym.HarnessCfg, tier string) {
+		return func(c *sym.HarnessCfg, tier string) {
+			c.Backend = backend
+			c.RelaxFDiv = relax
+			c.TimeoutMs = 600000
+			c.FeasTimeoutMs = 20000
+		}
+	}
+	reg(&PropSpec{
+		ID: "C17",
+		Harnesses: []HarnessSpec{
+			{Dir: "root", Name: "ZZ_C17_round", Reach: []string{"in"}, Tweak: fp("z3", false)},
+			{Dir: "root", Name: "ZZ_C17_newamount", Reach: []string{"finite", "nonfinite", "odd"}, Tweak: fp("z3", false)},
+			{Dir: "root", Name: "ZZ_C17_mulf64", Reach: []string{"in"}, Tweak: fp("z3", false)},
+			{Dir: "root", Name: "ZZ_C17_units", Reach: []string{"in"}, Tweak: fp("z3", false)},
+			{Dir: "root", Name: "ZZ_C17_monotone", Reach: []string{"in"}, Tweak: fp("cvc5", false)},
+			{Dir: "root", Name: "ZZ_C17_roundtrip", Reach: []string{"in"}, Tweak: fp("cvc5", true)},
+		},
+	})
+	reg(&PropSpec{
+		ID: "C18",
+		Harnesses: []HarnessSpec{
+			{Dir: "txsort", Name: "ZZ_C18_sort", Variant: "in<=2,out<=2,script<=1", Reach: []string{"end"}, Tweak: params(false, "maxin", 2, "maxout", 2, "maxscript", 1)},
+			{Dir: "txsort", Name: "ZZ_C18_sort", Variant: "in=3", Reach: []string{"end"}, Tweak: params(false, "minin", 3, "maxin", 3, "maxout", 0)},
+			{Dir: "txsort", Name: "ZZ_C18_sort", Variant: "out=3,script<=2", Reach: []string{"end"}, Tweak: params(false, "maxin", 0, "minout", 3, "maxout", 3, "maxscript", 2)},
+			{Dir: "txsort", Name: "ZZ_C18_sort", Variant: "in=4", Tiers: "thorough", Reach: []string{"end"}, Tweak: params(false, "minin", 4, "maxin", 4, "maxout", 0)},
+			{Dir: "txsort", Name: "ZZ_C18_sort", Variant: "out=4,script<=2", Tiers: "thorough", Reach: []string{"end"}, Tweak: params(false, "maxin", 0, "minout", 4, "maxout", 4, "maxscript", 2)},
+			{Dir: "txsort", Name: "ZZ_C18_sort", Variant: "in<=3,out<=3,script<=1", Tiers: "thorough", Reach: []string{"end"}, Tweak: params(false, "maxin", 3, "maxout", 3, "maxscript", 1)},
+		},
+	})
+	reg(&PropSpec{
+		ID: "C19",
+		Harnesses: []HarnessSpec{
+			{Dir: "coinset", Name: "ZZ_C19_select", Variant: "coins<=2", Reach: []string{"minindex-ok", "minindex-fail", "minnumber-ok", "maxvalueage-ok", "minpriority-ok", "minpriority-fail"}, Tweak: params(false, "maxcoins", 2)},
+			{Dir: "coinset", Name: "ZZ_C19_coinset", Reach: []string{"end"}, Tweak: params(false, "steps", 3)},
+			{Dir: "coinset", Name: "ZZ_C19_select", Variant: "coins<=3", Tiers: "thorough", Reach: []string{"minpriority-ok"}, Tweak: params(false, "maxcoins", 3)},
+			{Dir: "coinset", Name: "ZZ_C19_coinset", Variant: "steps=5", Tiers: "thorough", Reach: []string{"end"}, Tweak: params(false, "steps", 5)},
+		},
+	})
 }
